@@ -501,7 +501,13 @@ func (v *violCtx) post(b *wire.Block, commit *bool) {
 	c, s, arg := v.c, v.c.s, v.op.Arg
 	switch v.op.Viol {
 	case "no_coinbase":
-		if len(b.Txs) > 1 {
+		if mod(arg, 3) == 1 {
+			// the first transaction starts with a null input but has a second input too: that is not a coinbase
+			h := sha256.Sum256([]byte{byte(arg), byte(arg >> 8), 0x33})
+			b.Txs[0].In = append(b.Txs[0].In, wire.TxIn{PrevHash: h, PrevIndex: uint32(mod(arg, 2)), Sequence: 0xffffffff})
+			v.sub = "null-first-input-plus-another"
+			v.effective = true
+		} else if len(b.Txs) > 1 {
 			b.Txs = b.Txs[1:]
 			*commit = false
 			v.effective = true
@@ -559,14 +565,27 @@ func (v *violCtx) post(b *wire.Block, commit *bool) {
 		for _, t := range b.Txs {
 			has = has || t.HasWitness()
 		}
-		if has && *commit {
+		if !has {
+			// no witness spend in the block (always so below the activation height): a witness-serialised coinbase
+			b.Txs[0].In[0].Witness = [][]byte{make([]byte, 32)}
+			has = true
+			v.sub = "coinbase-witness-only"
+			if !c.segwit {
+				v.sub = "below-activation-height"
+			}
+		}
+		if has {
 			*commit = false
 			v.effective = true
 		}
 	case "wit_nonce_size":
 		if c.segwit {
 			*commit = true
-			switch mod(arg, 5) {
+			switch mod(arg, 6) {
+			case 5:
+				// the coinbase carries the commitment output but no witness at all (stripped after the block is
+				// finished, see final): serialised in the old format when no other transaction has a witness
+				v.sub = "no-coinbase-witness"
 			case 0:
 				b.Txs[0].In[0].Witness = [][]byte{make([]byte, 31)}
 			case 1:
@@ -661,6 +680,10 @@ func (v *violCtx) final(b *wire.Block) {
 		env.Mine(&b.Header, true)
 	}
 	switch v.op.Viol {
+	case "wit_nonce_size":
+		if v.sub == "no-coinbase-witness" {
+			b.Txs[0].In[0].Witness = nil // (not part of the txid: merkle root and proof of work stay)
+		}
 	case "high_hash":
 		v.effective = env.Mine(&b.Header, false)
 	case "merkle_wrong":
